@@ -3548,3 +3548,75 @@ func (r *Report) PositiveSlices(key string) {
 		r.Unres(key, d, fmt.Sprintf("positive example: flagged=%d (want 2), guarded flagged=%d (want 0)", len(bad), len(good)))
 	}
 }
+
+func trimConst(a string) string { return strings.TrimPrefix(a, "const:") }
+
+// DeferredRelease: fn installs a defer whose closure calls `release` and sends on `ch`, unconditionally, and the defer
+// dominates every return of fn.
+func (r *Report) DeferredRelease(key, fnKey, release, ch string) {
+	w := r.W
+	fn := w.Fn(fnKey)
+	d := fmt.Sprintf("%s installs, before any return, a defer that unconditionally calls %s and sends on %s", fnKey, release, ch)
+	k := key + "|" + fnKey
+	if fn == nil {
+		r.Unres(k, d, "function not found")
+		return
+	}
+	for _, b := range fn.Blocks {
+		for _, in := range b.Instrs {
+			df, ok := in.(*ssa.Defer)
+			if !ok {
+				continue
+			}
+			mc, ok := df.Call.Value.(*ssa.MakeClosure)
+			if !ok {
+				continue
+			}
+			cf := mc.Fn.(*ssa.Function)
+			rel := Calls(cf, release)
+			snd := sendsOn(cf, ch)
+			if len(rel) == 0 || len(snd) == 0 {
+				continue
+			}
+			// unconditional inside the closure: in the entry block or dominating every return of the closure
+			for _, c := range rel {
+				for _, cb := range cf.Blocks {
+					if rt := returnOf(cb); rt != nil && cb != cf.Recover && !c.Block().Dominates(cb) {
+						r.Bad(k, d, w.posOr(c.Pos(), cf), "the release inside the deferred closure is conditional")
+						return
+					}
+				}
+			}
+			for _, rb := range fn.Blocks {
+				if rt := returnOf(rb); rt != nil && rb != fn.Recover && !b.Dominates(rb) {
+					r.Bad(k, d, w.posOr(rt.Pos(), fn), "this return can happen before the defer is installed: the signals stay marked in flight for ever")
+					return
+				}
+			}
+			r.OK(k, d, w.Pos(df.Pos()), "defer dominates every return; release unconditional")
+			return
+		}
+	}
+	r.Bad(k, d, w.FnPos(fn), "no such defer")
+}
+
+// ConstNonNegative: named integer constant >= 0.
+func (r *Report) ConstNonNegative(key, pkgRel, name string) {
+	w := r.W
+	d := pkgRel + "." + name + " is a non-negative constant"
+	p := w.PkgBy[pkgRel]
+	if p == nil {
+		r.Unres(key, d, "package not found")
+		return
+	}
+	v := constBig(pkgConst(p, name))
+	if v == nil {
+		r.Unres(key, d, "not an integer constant (a variable could be changed at run time)")
+		return
+	}
+	if v.Sign() >= 0 {
+		r.OK(key, d, "-", v.String())
+	} else {
+		r.Bad(key, d, "-", v.String())
+	}
+}
